@@ -9,10 +9,10 @@ import numpy as np
 from rv import source as SRC
 from rv import common as C
 
-N_CASES = {'quick': 1200, 'thorough': 24000}
+N_CASES = {'quick': 3000, 'thorough': 24000}
 TIMEOUT = {'quick': 1500, 'thorough': 6 * 3600}
 ANCHORS = ['lp:Model.do_math', 'socp:Model.do_math', 'gcp:Model.do_math', 'ro:Model.do_math']
-FLOORS = {'judged': {'quick': 800, 'thorough': 16000}, 'nontrivial': 120}
+FLOORS = {'judged': {'quick': 2000, 'thorough': 16000}, 'nontrivial': 120}
 RULE = ('continuous models: LPs with every per-variable bound pattern (free, >=0, <=0, lower, '
         'upper, both, fixed at 0, fixed at non-zero; as bound objects and as rows), equalities '
         'and inequalities, SOC/exp-cone models over all atoms, robust counterparts of ro models, '
